@@ -155,3 +155,171 @@ func c11GenericShape(repo string) (*c11GenericFacts, error) {
 	})
 	return out, nil
 }
+
+// Shape facts about the visitor handler (the type NewCancelableErrorHandler returns) that `Handler.call` /
+// `clearConsumed` in Model/C11 transcribe:
+//
+//	SetError.onlyWhenNonNil   the body is exactly `if err != nil { … }`: a nil error changes nothing
+//	SetError.setsDoneAndErr   inside that guard the error field is assigned and done is set to true
+//	SetErrorf.viaSetError     SetErrorf only calls SetError
+//	SetDone.setsDoneOnly      body is exactly `s.<done> = true`
+//	Consume.setsFlagOnly      body is exactly `s.<flag> = true`
+//	WasConsumed.readAndClear  reads the flag into a local, sets the flag to false, returns the local
+//	Done.readsDone / Error.readsErr   plain field reads
+func c11HandlerShape(repo string) ([][2]string, error) {
+	_, files, err := parseDir(filepath.Join(repo, filepath.FromSlash(c11WalkDir)))
+	if err != nil {
+		return nil, err
+	}
+	methods := map[string]map[string]*ast.FuncDecl{}
+	var ctor *ast.FuncDecl
+	for _, f := range files {
+		for _, d := range f.Decls {
+			g, ok := d.(*ast.FuncDecl)
+			if !ok {
+				continue
+			}
+			if rt := recvType(g); rt != "" {
+				if methods[rt] == nil {
+					methods[rt] = map[string]*ast.FuncDecl{}
+				}
+				methods[rt][g.Name.Name] = g
+			} else if g.Name.Name == "NewCancelableErrorHandler" {
+				ctor = g
+			}
+		}
+	}
+	tn := ""
+	if ctor != nil && ctor.Body != nil && len(ctor.Body.List) == 1 {
+		if rs, ok := ctor.Body.List[0].(*ast.ReturnStmt); ok && len(rs.Results) == 1 {
+			if u, ok := rs.Results[0].(*ast.UnaryExpr); ok {
+				if cl, ok := u.X.(*ast.CompositeLit); ok {
+					if id, ok := cl.Type.(*ast.Ident); ok {
+						tn = id.Name
+					}
+				}
+			}
+		}
+	}
+	ms := methods[tn]
+	if tn == "" || ms == nil {
+		return nil, fmt.Errorf("c11: handler type of NewCancelableErrorHandler not found")
+	}
+	var out [][2]string
+	fact := func(name string, v bool) { out = append(out, [2]string{name, fmt.Sprint(v)}) }
+	body := func(m string) (recv string, stmts []ast.Stmt) {
+		if fd := ms[m]; fd != nil && fd.Body != nil {
+			return c11RecvName(fd), fd.Body.List
+		}
+		return "", nil
+	}
+	// `recv.<field> = <ident val>`; returns the field name
+	assignsConst := func(st ast.Stmt, recv, val string) string {
+		as, ok := st.(*ast.AssignStmt)
+		if !ok || as.Tok != token.ASSIGN || len(as.Lhs) != 1 || len(as.Rhs) != 1 || !c11IsIdent(as.Rhs[0], val) {
+			return ""
+		}
+		sel, ok := as.Lhs[0].(*ast.SelectorExpr)
+		if !ok || !c11IsIdent(sel.X, recv) {
+			return ""
+		}
+		return sel.Sel.Name
+	}
+	returnsField := func(stmts []ast.Stmt, recv string) string {
+		if len(stmts) != 1 {
+			return ""
+		}
+		rs, ok := stmts[0].(*ast.ReturnStmt)
+		if !ok || len(rs.Results) != 1 {
+			return ""
+		}
+		sel, ok := rs.Results[0].(*ast.SelectorExpr)
+		if !ok || !c11IsIdent(sel.X, recv) {
+			return ""
+		}
+		return sel.Sel.Name
+	}
+
+	recv, st := body("SetDone")
+	doneField := ""
+	if len(st) == 1 {
+		doneField = assignsConst(st[0], recv, "true")
+	}
+	fact("SetDone.setsDoneOnly", doneField != "")
+	recv, st = body("Done")
+	fact("Done.readsDone", doneField != "" && returnsField(st, recv) == doneField)
+	recv, st = body("Error")
+	errField := returnsField(st, recv)
+	fact("Error.readsErr", errField != "" && errField != doneField)
+
+	recv, st = body("Consume")
+	flag := ""
+	if len(st) == 1 {
+		flag = assignsConst(st[0], recv, "true")
+	}
+	fact("Consume.setsFlagOnly", flag != "" && flag != doneField && flag != errField)
+
+	// WasConsumed: v := s.flag; s.flag = false; return v
+	recv, st = body("WasConsumed")
+	rc := false
+	if len(st) == 3 && flag != "" {
+		as, ok := st[0].(*ast.AssignStmt)
+		if ok && len(as.Lhs) == 1 && len(as.Rhs) == 1 {
+			if v, ok := as.Lhs[0].(*ast.Ident); ok {
+				if sel, ok := as.Rhs[0].(*ast.SelectorExpr); ok && c11IsIdent(sel.X, recv) && sel.Sel.Name == flag {
+					if assignsConst(st[1], recv, "false") == flag {
+						if rs, ok := st[2].(*ast.ReturnStmt); ok && len(rs.Results) == 1 && c11IsIdent(rs.Results[0], v.Name) {
+							rc = true
+						}
+					}
+				}
+			}
+		}
+	}
+	fact("WasConsumed.readAndClear", rc)
+
+	// SetError(err): exactly `if err != nil { … err field assigned … ; s.done = true }`
+	guarded, sets := false, false
+	if fd := ms["SetError"]; fd != nil && fd.Body != nil && len(c11Params(fd)) == 1 {
+		recv, p := c11RecvName(fd), c11Params(fd)[0]
+		if len(fd.Body.List) == 1 {
+			if is, ok := fd.Body.List[0].(*ast.IfStmt); ok && is.Init == nil && is.Else == nil {
+				if x := c11NilTest(is.Cond, token.NEQ); x != nil && c11IsIdent(x, p) {
+					guarded = true
+					setsDone, setsErr := false, false
+					ast.Inspect(is.Body, func(n ast.Node) bool {
+						if as, ok := n.(*ast.AssignStmt); ok && len(as.Lhs) == 1 {
+							if sel, ok := as.Lhs[0].(*ast.SelectorExpr); ok && c11IsIdent(sel.X, recv) {
+								if sel.Sel.Name == doneField && len(as.Rhs) == 1 && c11IsIdent(as.Rhs[0], "true") {
+									setsDone = true
+								}
+								if sel.Sel.Name == errField {
+									setsErr = true
+								}
+							}
+						}
+						return true
+					})
+					sets = setsDone && setsErr
+				}
+			}
+		}
+	}
+	fact("SetError.onlyWhenNonNil", guarded)
+	fact("SetError.setsDoneAndErr", sets)
+
+	// SetErrorf: s.SetError(fmt.Errorf(...))
+	via := false
+	recv, st = body("SetErrorf")
+	if len(st) == 1 {
+		if es, ok := st[0].(*ast.ExprStmt); ok {
+			if c, ok := es.X.(*ast.CallExpr); ok && len(c.Args) == 1 {
+				if sel, ok := c.Fun.(*ast.SelectorExpr); ok && sel.Sel.Name == "SetError" && c11IsIdent(sel.X, recv) {
+					via = true
+				}
+			}
+		}
+	}
+	fact("SetErrorf.viaSetError", via)
+	return out, nil
+}
